@@ -4,11 +4,15 @@
 # properties/rules fire.  Writes seeded/<id>/detected.json, prints a line per seed.
 cd /verif
 export PATH="$PWD/bin/gobin:$PATH" GOFLAGS=-mod=mod GOPROXY=off GOSUMDB=off GOTOOLCHAIN=local GOWORK=off
-( cd analyzer && go build -o ../bin/bleveverif . ) || exit 2
+# optional: SHARD=i/n processes every n-th seed starting at i (run n of them in parallel); NOBUILD=1 skips the build
+[ -z "$NOBUILD" ] && { ( cd analyzer && go build -o ../bin/bleveverif . ) || exit 2; }
+k=-1
 for d in seeded/*/; do
   id=$(basename $d)
   [ -f "$d/patch.diff" ] || continue
   [ -n "$1" ] && [ "$1" != "$id" ] && continue
+  k=$((k+1))
+  if [ -n "$SHARD" ]; then si=${SHARD%/*}; sn=${SHARD#*/}; [ $((k % sn)) -ne $si ] && continue; fi
   tmp=$(mktemp -d /tmp/bleveverif-matrix.XXXXXX); mkdir -p "$tmp/ov" "$tmp/verif"; cp known_findings.json "$tmp/verif/"
   okcopy=1
   for f in $(grep -E '^\+\+\+ b/' "$d/patch.diff" | sed 's#^+++ b/##'); do mkdir -p "$tmp/ov/$(dirname "$f")"; cp "/repo/$f" "$tmp/ov/$f" 2>/dev/null || okcopy=0; done
